@@ -27,6 +27,8 @@ def plan(ctx):
         oid = f"lookups.{p['kind']}" + (f".{p['op']}" if p['op'] else "")
         obs.append(Obligation(oid, "xh", "c18", "node_lookups", param=p, timeout=T, bounds="name bound or not; 0..2 children",
                               desc="the node asks the names mapping only for its own name field"))
+        obs.append(Obligation(oid + ".pct", "xh", "c18", "node_lookups", param={**p, "name": "%x y.z%"}, timeout=T, bounds="%..% name with blanks and dots, bound or not",
+                              desc="the node asks the names mapping only for its own (percent) name, never for a variant of it"))
     for i, text in enumerate(h.TEMPLATES):
         obs.append(Obligation(f"api.t{i}", "xh", "c18", "api_lookups", param={"t": i}, timeout=T, bounds="host values symbolic",
                               desc=f"eval({text!r}) with a recording host mapping: every requested key is in list_names(text) or implicit"))
